@@ -196,6 +196,8 @@ def run(cfg, fault_at=None, resume_from=None, file_path=None, keep_points=False,
                 "final": snapshot_samples(res),
                 "log_evidence": float(tonp(res.log_evidence)),
                 "log_evidence_error": float(tonp(res.log_evidence_error)),
+                "evidence_dtypes": [str(tonp(res.log_evidence).dtype), str(tonp(res.log_evidence_error).dtype)],
+                "evidence_exact": [repr(float(tonp(res.log_evidence))), repr(float(tonp(res.log_evidence_error)))],
             }
     except InjectedFault as e:
         out.exception = ("InjectedFault", str(e))
